@@ -179,18 +179,46 @@ def e2e(rep, tier, seed):
                 meta.append((p["id"], name, vi, R, items))
         cases.append({"text": p["text"], "config": p["header"], "again": False, "lex": False})
         meta.append((p["id"], "unrestricted", 0, None, items))
+    # synthetic programs: attribute lines, blank runs and comments with trailing blanks between items
+    rs = random.Random("c17-synth-%d" % (seed if tier != "thorough" else 0))
+    nsyn = 60 if tier != "thorough" else 600
+    for si in range(nsyn):
+        lines, items = [], []
+        for ii in range(rs.randint(3, 6)):
+            start = len(lines) + 1
+            for _ in range(rs.randint(0, 2)):
+                lines.append(rs.choice(["#[inline]", "#[cold]", "#[allow(unused)]", "// note", "/* c */"]) + rs.choice(["", "", " ", "\t", "  "]))
+            body = rs.choice(["fn  f%d( ) { }", "struct  S%d  {a:u8}", "const C%d :u8=1;", "fn g%d(){\n    let x=1;   \n}"]) % ii
+            for bl in body.split("\n"):
+                lines.append(bl)
+            items.append((start, len(lines)))
+            for _ in range(rs.randint(0, 3)):
+                lines.append(rs.choice(["", "", "   "]))
+        text = "\n".join(lines) + "\n"
+        tb = text.encode()
+        # byte spans of the items (attributes included), from the line numbers
+        offs = [0]
+        for l in lines:
+            offs.append(offs[-1] + len(l.encode()) + 1)
+        its = [(a, b, offs[a - 1], offs[b] - 1, "item") for a, b in items]
+        pid = "synth/%d" % si
+        for (a, b) in items:
+            cases.append({"text": text, "config": [fl([(a, b)])], "again": False, "lex": False})
+            meta.append((pid, "aligned", 0, [(a, b)], its))
+        cases.append({"text": text, "config": [], "again": False, "lex": False})
+        meta.append((pid, "unrestricted", 0, None, its))
     res = common.run_vh_pool("pool", cases, per_case_timeout=15)
     found = n = 0
     by = {}
     for (pid, name, vi, R, items), c, r in zip(meta, cases, res):
-        by.setdefault(pid, {})[(name, vi)] = (c, r, R, items)
+        by.setdefault(pid, {})[(name, vi, str(R))] = (c, r, R, items)
     for pid, d in by.items():
-        full = d.get(("unrestricted", 0))
+        full = d.get(("unrestricted", 0, "None"))
         if full is None or not pool.accepted(full[1]):
             continue
         text = full[0]["text"]
         tb = text.encode("utf-8")
-        for (name, vi), (c, r, R, items) in d.items():
+        for (name, vi, _rk), (c, r, R, items) in d.items():
             if name == "unrestricted" or not pool.accepted(r):
                 continue
             n += 1
@@ -207,7 +235,7 @@ def e2e(rep, tier, seed):
                         found += 1
                 continue
             if vi > 0:
-                ref = d.get((name, 0))
+                ref = next((v for (nm, v0, _), v in d.items() if nm == name and v0 == 0), None)
                 if ref is not None and pool.accepted(ref[1]) and ref[1]["out"] != out:
                     if rep.violation("e2e_union:%s" % pid, base, "selections with the same union format %s differently: %r vs %r" % (pid, R, c["config"][-1][1])):
                         found += 1
